@@ -36,10 +36,10 @@ Contract clauses (one obligation each)
                                          variance and phase equal the exact values to rtol 1e-9
   known-*  the same 5 % test as mean-within-5pct-of-integration, isolated on three input conditions (stated on the
            input / the exact integrated quantities, never on the code's output) where the unchanged code misses it:
-    known-unphased-younger-parent-mean-cancellation   unphased_moments E[t_i] when the exact E[t_i] < 0.2 E[t_j]
-           (E[t_i] is formed as (a_i+a_j+y)/(mu+b_i) - z E[t_j]; the Laplace error of E[t_j] is amplified; observed
-           relative errors up to 23x at y = 1000, shapes ~1; E[t_j] of the same call is accurate, and swapping the
-           two parents gives an accurate value)
+    known-unphased-younger-parent-mean-cancellation   unphased_moments E[t_i] when z E[t_j] > E[t_i] (exact means),
+           z = (mu+b_j)/(mu+b_i): E[t_i] is formed as (a_i+a_j+y)/(mu+b_i) - z E[t_j] and the Laplace error of E[t_j]
+           (<= ~4 %) is amplified by z E[t_j]/E[t_i]; observed relative errors up to 23x at y = 1000, shapes ~1.
+           E[t_j] of the same call is accurate, and calling with the two parents swapped gives an accurate E[t_i].
     known-mutation-unphased-mean-cavity-shape-le-1    mutation_unphased_moments E[t_m] when min(a_i, a_j) <= 1
     known-mutation-sideways-mean-cavity-shape-le-1    mutation_sideways_moments E[t_m] when a_j <= 1
            (ratios of Laplace approximations with different first parameters; 3.2 % .. 5.3 % observed)
@@ -445,10 +445,12 @@ def _phase_case(cx, key, inp, what, observed, reference):
 # =========================================================================================== known conditions
 # Conditions (stated on the INPUT, using the exact integrated quantities, never on the code's output) under which
 # the unchanged code misses the 5 % bound.  They are evaluated with the same strict test in their own clause.
-def known_unphased_small_parent(ref):
-    """unphased_moments computes E[t_i] = (a_i+a_j+y)/(mu+b_i) - z E[t_j] by subtraction; when parent i is much
-    younger than parent j the two terms cancel and the Laplace error of E[t_j] is amplified in E[t_i]."""
-    return float(ref["mn_i"] / ref["mn_j"]) < 0.2
+def known_unphased_cancellation(ref, b_i, b_j, mu):
+    """unphased_moments forms E[t_i] = (a_i+a_j+y)/(mu+b_i) - z E[t_j], z = (mu+b_j)/(mu+b_i), by subtraction.  The
+    relative Laplace error of E[t_j] (up to ~4 %) is multiplied by kappa = z E[t_j] / E[t_i] in E[t_i]; the condition
+    isolated here is kappa > 1 (the subtracted term exceeds the result), evaluated with the exact integrated means."""
+    z = (mpf(mu) + mpf(b_j)) / (mpf(mu) + mpf(b_i))
+    return z * ref["mn_j"] / ref["mn_i"] > 1
 
 
 KNOWN_UNPHASED = "known-unphased-younger-parent-mean-cancellation"
@@ -513,7 +515,7 @@ def fam_unphased(cx, approx, p, tag):
         cx.oracle_fail += 1
         return
     if ok:
-        small = known_unphased_small_parent(ref)
+        small = known_unphased_cancellation(ref, b_i, b_j, mu)
         _mean_case(cx, key, inp, "unphased_moments.mn_i", out[1], ref["mn_i"], known=KNOWN_UNPHASED if small else None)
         _mean_case(cx, key, inp, "unphased_moments.mn_j", out[3], ref["mn_j"])
     if mok and not (0.0 <= mout[0] <= 1.0):  # the wrapper turns this into an explicit skip (checked above)
@@ -776,9 +778,13 @@ def captured_cases(rng, n_per, notes):
             return f(*args)
         return g
     seed = int(rng.integers(1 << 30))
-    runs = [("haploid", inputs.sim(seed % 1000, n=4, L=1e4), {}),
-            ("historical", inputs.historical(seed % 997), {}),
-            ("unphased-diploid", inputs.diploid_unphased(seed % 991, n=2), {"singletons_phased": False})]
+    import msprime
+    hist = msprime.sim_ancestry([msprime.SampleSet(3, time=0, ploidy=1), msprime.SampleSet(2, time=20, ploidy=1)],
+                                sequence_length=6e3, recombination_rate=1e-4, population_size=100, random_seed=seed % 997 + 3)
+    hist = msprime.sim_mutations(hist, rate=2e-4, random_seed=seed % 997 + 11)
+    runs = [("haploid", inputs.sim(seed % 1000, n=4, L=6e3), {}),
+            ("historical", hist, {}),
+            ("unphased-diploid", inputs.sim(seed % 991, n=2, L=6e3, ploidy=2), {"singletons_phased": False})]
     try:
         for n in names:
             setattr(approx, n, wrap(n))
